@@ -224,6 +224,13 @@ def table : List Entry := [
   ⟨"p2p.readFrom|make|make([]byte, size)", "after:size > msgSizeLimit || size <= 0", .flag "readSize"⟩,
   ⟨"p2p.readFrom|slice|buffer[totalContentBytesRead:]", "for:totalContentBytesRead < int(size) && err == nil", .safe "loop condition: offset < len"⟩,
   ⟨"p2p.readFrom|slice|header[totalBytesRead:]", "for:totalBytesRead < headerSize && err == nil", .safe "loop condition: offset < len"⟩,
+  ⟨"p2p.server.callHandler|deref|c.close", "after:c == nil", .guarded⟩,
+  ⟨"p2p.server.callHandler|deref|c.conn", "in:c != nil", .flag "callRemoveNil"⟩,
+  ⟨"p2p.server.callHandler|deref|c.remoteID", "after:c == nil", .guarded⟩,
+  ⟨"p2p.server.callHandler|deref|c.remoteID#2", "after:c == nil", .guarded⟩,
+  ⟨"p2p.server.callHandler|deref|c.send", "", .safe "c is the entry found non-nil by the enclosing `if c = clients[..]; c == nil`, or the client handleCallReq just returned non-nil (the nil case continues)"⟩,
+  ⟨"p2p.server.callHandler|mapwrite|clients[string(req.id)]", "made:clients", .guarded⟩,
+  ⟨"p2p.server.callHandler|mapzero|clients[string(id)]", "read", .guarded⟩,
   ⟨"p2p.server.eventDispatch|close|close(eventCh)", "", .safe "shutdown path: each subscription channel once"⟩,
   ⟨"p2p.server.eventDispatch|close|close(subscriptions[subID])", "", .safe "local API: UnSubscribeEvent with the id SubscribeEvent returned"⟩,
   ⟨"p2p.server.eventDispatch|mapwrite|subscriptions[sub.subID]", "made:subscriptions", .guarded⟩,
@@ -302,7 +309,8 @@ def table : List Entry := [
 
 /-- guards that protect a receiver / state component rather than an extracted site -/
 def extraConds : List (String × String × String) := [
-  ("aggNil", "vss.Verifier.ProcessResponse", "v.aggregator == nil")
+  ("aggNil", "vss.Verifier.ProcessResponse", "v.aggregator == nil"),
+  ("callIdMatch", "p2p.server.callHandler", "string(c.remoteID) != string(req.id)")
 ]
 
 def Clause.flagName : Clause → Option String
@@ -349,7 +357,7 @@ def Cfg.current : Cfg :=
     qloopOk := flagOn "qloopOk", qloopCast := flagOn "qloopCast", rsNil := flagOn "rsNil", rsMake := flagOn "rsMake",
     groupInfoIds := flagOn "groupInfoIds", byte32Len := flagOn "byte32Len", crRand := flagOn "crRand",
     sigIdxLen := flagOn "sigIdxLen", recoverDedup := flagOn "recoverDedup", anyNil := flagOn "anyNil",
-    ridCast := flagOn "ridCast", ridLen := flagOn "ridLen", readSize := flagOn "readSize", mdNil := flagOn "mdNil", dispReplyNil := flagOn "dispReplyNil",
+    ridCast := flagOn "ridCast", ridLen := flagOn "ridLen", readSize := flagOn "readSize", mdNil := flagOn "mdNil", dispReplyNil := flagOn "dispReplyNil", callRemoveNil := flagOn "callRemoveNil", callIdMatch := flagOn "callIdMatch",
     listenName := flagOn "listenName", listenCast := flagOn "listenCast", lookupName := flagOn "lookupName" }
 
 /-- exactly three closing statement lists in the session layer: any other one is unaccounted for -/
